@@ -137,7 +137,7 @@ func TestC11Rapid(t *testing.T) {
 		} else {
 			o.ElNames = []string{"a", "qa", "a-1"}
 		}
-		wide := rapid.IntRange(0, 9).Draw(rt, "wide") == 0
+		wide := rapid.IntRange(0, 9).Draw(rt, "wide") == 9
 		if wide {
 			// sibling indexes of two digits: (1,12) and (11,2) must not share an identity key
 			o.WideFan, o.MaxAttrs, o.PElem = 13, 0, 9
